@@ -187,3 +187,34 @@ Fixpoint run_sched (ps : list policy) (sched : list nat) (ks : list chain_st) : 
 
 Definition chain_result (k : chain_st) : list sent * option chain_end :=
   (k_sent k, match k_status k with Running => None | Ended e => Some e end).
+
+(* ---------- (3) operations in which the client itself issues several requests for ONE named URL ----------
+   a retry attempt after a retryable answer (Request.do's retry loop sends r.RawRequest again); the
+   probing HEAD and every ranged segment GET of ParallelDownload.Do (pd.client.Head(pd.url),
+   pd.client.Get(pd.url)).  Each is a request to the NAMED authority: a fresh chain from [init] under
+   the same policies, with the same caller headers - never a first-hop request to a host learned from
+   an earlier redirect.  [scripts]: the Location authorities the servers answer to the successive
+   requests; the operation ends with the first chain that is refused (the caller gets its error). *)
+Fixpoint reissue (ps : list policy) (init : bytes) (hs : hdrs) (scripts : list (list bytes))
+  : list outcome :=
+  match scripts with
+  | [] => []
+  | t :: r =>
+      let o := run_chain ps init hs t in
+      o :: match snd o with Completed => reissue ps init hs r | Refused => [] end
+  end.
+
+(* A wrong design kept for contrast (seeded change c-m1): once the first request has been answered
+   the later ones are sent to where ITS chain ended, as first-hop requests: no CheckRedirect, the
+   caller's headers in full *)
+Definition reissue_from_final (ps : list policy) (init : bytes) (hs : hdrs) (scripts : list (list bytes))
+  : list outcome :=
+  match scripts with
+  | [] => []
+  | t :: r =>
+      let o := run_chain ps init hs t in
+      o :: match snd o with
+           | Completed => map (fun _ => run_chain ps (last t init) hs []) r
+           | Refused => []
+           end
+  end.
